@@ -217,6 +217,59 @@ def timers_run(ctx, seed):
     return fails
 
 
+def hard_deadline_run(ctx, seed):
+    """The peer stays alive but answers every IKE_SA rekey with TEMPORARY_FAILURE (it is busy each time): the IKE_SA
+    must still be deleted 30 s after its lifetime elapsed, and its hard deadline must never move."""
+    from ikesa import IkeSa
+    fails = []
+    conf = {'dpd': 1000, 'ike_lifetime': 40}
+    with Pair(seed=seed, **conf) as p:
+        try:
+            p.run([list(a) for a in HANDSHAKE])
+            sa = p.A.controller.ike_sas[0]
+            for sb in p.B.controller.ike_sas:
+                sb.rekey_ike_sa_at += 10000
+                sb.delete_ike_sa_at += 10000
+            soft, hard = sa.rekey_ike_sa_at, sa.delete_ike_sa_at
+            refused = 0
+            while p.sim.clock < hard + 4:
+                p.do(['tick', 1])
+                # deliver everything; while A's rekey request is being answered, B is "doing something else"
+                n = 0
+                while p.sim.net and n < 20:
+                    src, dst, data = p.sim.net[0]
+                    h = hdr_fields(data)
+                    busy = (dst == '192.168.0.2' and h[4] == 36 and not (data[19] & 0x20))
+                    olds = []
+                    if busy:
+                        for sb in p.B.controller.ike_sas:
+                            if int(sb.state) == 10:
+                                olds.append(sb)
+                                sb.state = IkeSa.State.DPD_REQ_SENT
+                    p.do(['deliver', 0])
+                    for sb in olds:
+                        if int(sb.state) == 17:
+                            sb.state = IkeSa.State.ESTABLISHED
+                            refused += 1
+                    n += 1
+                ctx.case({'kind': 'hard-deadline', 't': p.sim.clock - 1_000_000.0, 'refused': refused}, nontrivial=refused > 0)
+                if sa in p.A.controller.ike_sas and sa.delete_ike_sa_at != hard:
+                    raise Fail('lifetime:hard-deadline-moved',
+                               f'after {refused} TEMPORARY_FAILURE answers to the IKE_SA rekey the hard deadline of the IKE_SA '
+                               f'moved from +{hard - 1_000_000.0} to +{sa.delete_ike_sa_at - 1_000_000.0} (lifetime 40 s)')
+            if refused == 0:
+                raise Fail('lifetime:rekey-time', 'no IKE_SA rekey request was sent after the lifetime elapsed')
+            if sa in p.A.controller.ike_sas and int(sa.state) not in (15, 21):
+                raise Fail('lifetime:not-deleted',
+                           f'IKE_SA still in state {int(sa.state)} {p.sim.clock - hard} s after its hard deadline (every rekey '
+                           f'attempt was answered with TEMPORARY_FAILURE, {refused} times); kernel SAs left: {len(p.A.kernel.sad)}')
+        except Fail as f:
+            fails.append(Failure('property', f.sig, str(f), {'kind': 'hard-deadline', 'seed': seed}))
+        except LoopEscape as ex:
+            fails.append(Failure('property', 'loop:escaped-exception', repr(ex.exc), {'kind': 'hard-deadline', 'seed': seed}))
+    return fails
+
+
 def crash_run(ctx, seed, scenario, cut):
     """The peer (B) disappears after `cut` actions of the scenario: every kernel SA of A must be gone within
     DPD interval + retransmission budget (+ one tick each)."""
@@ -261,7 +314,8 @@ def correspond(ctx):
             ctx.oracle_fails = getattr(ctx, 'oracle_fails', []) + f
             results.append(res)
     runs = sc.plan(ctx, walks_quick=6, walks_thorough=60)
-    runs = [r for r in runs if r[0].split('/')[0] in ('dpd', 'lost_everything', 'retransmit_request', 'rekey_ike')
+    runs = [r for r in runs if r[0].split('/')[0] in ('dpd', 'lost_everything', 'retransmit_request', 'rekey_ike', 'simultaneous_rekey_ike',
+                                      'postponed_rekey_then_child')
             or r[0].startswith('walk')]
     results += sc.execute(ctx, runs)
     return sc.shell_correspondence(ctx, results, kinds=(0, 1, 2, 3), focus=focus)
@@ -281,6 +335,7 @@ def oracle(ctx, deep):
             f, _ = lost_request_run(ctx, kind, 'random', pat, ctx.rng.getrandbits(32))
             fails += f
     fails += timers_run(ctx, ctx.rng.getrandbits(32))
+    fails += hard_deadline_run(ctx, ctx.rng.getrandbits(32))
     from sim.scenarios import scripted
     scen = ['handshake', 'rekey_child', 'rekey_ike', 'delete_child', 'new_child'] if not deep else \
         ['handshake', 'rekey_child', 'rekey_ike', 'delete_child', 'new_child', 'rekey_ike_then_child',
@@ -306,6 +361,8 @@ def regressions(ctx):
 def replay(ctx, obj):
     if obj.get('kind') == 'timers':
         return timers_run(ctx, obj['seed'])
+    if obj.get('kind') == 'hard-deadline':
+        return hard_deadline_run(ctx, obj['seed'])
     if obj.get('kind') == 'crash':
         return crash_run(ctx, obj['seed'], obj['scenario'], obj['cut'])
     k = next((x for x in KINDS if x[0] == obj.get('kind')), None)
